@@ -191,6 +191,38 @@ def plan(ctx):
             ("re", True, [1, 2], [(1, 1), (2, 1), (2, 2)], [])]
 
 
+def check_norm_factor(ctx, gs, tag):
+    """norm_factor(n) = value of the table expand_norm_factor(n, min_order=2) on the code's own overlaps S(k), every
+    factor with its own summed indices - the hypothesis under which norm_factor_series makes it the inverse of the norm
+    series.  The table is the Lean model's (Adc.expandTaylor), the products are built here with fresh indices."""
+    from adcgen import Expr
+    from props.c19 import product_terms
+    import sympy
+    nmax = ctx.pick(4, 5)
+    exprs = {f"S{k}": gs.overlap(k) for k in range(2, nmax + 1)}
+    exprs.update({f"N{n}": gs.norm_factor(n) for n in range(2, nmax + 1)})
+    ic = X.IdxCtx(registered_zero=True)
+    for v in exprs.values():
+        X._walk_indices(sympy.sympify(v), ic)
+    ic.freeze()
+    xs = {}
+    for k, v in exprs.items():
+        (x,), _ = X.export_many([(Expr(v, target_idx=""), "auto")], ic)
+        xs[k] = x
+    for n in range(2, nmax + 1):
+        tbl = ctx.drv().ask({"op": "taylor", "f": "inv", "order": n, "min": 2})["r"]
+        expect = []
+        for (num, den), orders in tbl:
+            for comp in orders:
+                expect += [(c * Fraction(num, den), o, x) for c, o, x in product_terms([xs[f"S{o_}"] for o_ in comp])]
+        ctx.case(("norm_factor", tag, n), nontrivial=True)
+        ctx.count("norm_factor_identities")
+        r = ctx.equiv(monic(distribute(xs[f"N{n}"])), monic(distribute(expect)), f"norm_factor({n}) {tag}")
+        judge(ctx, r, f"norm_factor({n}) [{tag}] is not the value of the table of expand_norm_factor({n}, min_order=2) on the overlaps "
+              "S(k) with independent summed indices per factor (factors share contracted indices?)",
+              {"request": f"norm_factor({n}) {tag}", "table": tbl})
+
+
 def run(ctx):
     import os
     from adcgen import Operators, GroundState
@@ -200,6 +232,8 @@ def run(ctx):
         tag = f"{variant}{'+singles' if singles else ''}"
         gs = GroundState(Operators(variant=variant), first_order_singles=singles)
         spec = Spec(ctx, variant, singles)
+        if "L" in part and variant == "mp" and not singles:
+            check_norm_factor(ctx, gs, tag)
         if "L" in part:
             for n in energies:
                 try:
